@@ -5,6 +5,7 @@ import (
 	"fmt"
 	"strings"
 	"sync"
+	"sync/atomic"
 	"time"
 
 	plugin "simworld/goplugin"
@@ -65,7 +66,7 @@ func init() {
 			}
 			if tier == "selftest" {
 				return seeded("C16", seed, 6, func(i int, sd uint64) *k.Spec {
-					s := &k.Spec{Params: cp(cells[int(k.H(sd, "cell", 0)%uint64(len(cells)))])}
+					s := &k.Spec{Seed: sd, Params: cp(cells[int(k.H(sd, "cell", 0)%uint64(len(cells)))])}
 					swarm(s, "server.go")
 					return s
 				})
@@ -79,7 +80,7 @@ func init() {
 				n = 150000
 			}
 			out = append(out, seeded("C16", seed, n, func(i int, sd uint64) *k.Spec {
-				s := &k.Spec{Params: cp(cells[int(k.H(sd, "cell", 0)%uint64(len(cells)))])}
+				s := &k.Spec{Seed: sd, Params: cp(cells[int(k.H(sd, "cell", 0)%uint64(len(cells)))])}
 				swarm(s, "server.go:Serve,server.go:serverListener")
 				if s.HotPermille == 0 {
 					s.HotPermille = 100
@@ -105,6 +106,7 @@ func runC16(r *h.Run) {
 	case "novalue":
 		hs.MagicCookieValue = ""
 	}
+	var lineSeen atomic.Bool
 	sh := plugins.NewShared("v1/" + proto)
 	w.RegisterProgram("/bin/served", []byte("#!served"), func() {
 		sc := &plugin.ServeConfig{HandshakeConfig: hs, Plugins: h.PluginSet(proto, sh)}
@@ -123,6 +125,15 @@ func runC16(r *h.Run) {
 		}
 		// the plugin's own code prints something a while after serving began
 		go func() {
+			// (a while after: once Serve has announced itself - output the
+			// plugin's code produces before that is the plugin author's own
+			// business and would make any stall inside Serve look like a defect)
+			for i := 0; !lineSeen.Load(); i++ {
+				if i > 600 {
+					return
+				}
+				time.Sleep(50 * time.Millisecond)
+			}
 			time.Sleep(1500 * time.Millisecond)
 			fmt.Fprintf(simos.GetStdout(), "USER OUTPUT ON STDOUT\n")
 			fmt.Fprintf(simos.GetStderr(), "user output on stderr\n")
@@ -239,6 +250,7 @@ func runC16(r *h.Run) {
 		raw = append(raw, data...)
 		if !checked && strings.Contains(string(raw), "\n") {
 			checked = true
+			lineSeen.Store(true)
 			f := strings.Split(strings.TrimSpace(firstLine(string(raw))), "|")
 			if len(f) >= 4 {
 				l := w.ListenerAt(f[2], f[3])
@@ -256,7 +268,7 @@ func runC16(r *h.Run) {
 		return
 	}
 	// wait for the line or the exit
-	deadline := time.After(20 * time.Second)
+	t0 := w.Now()
 	var hostConnErr error
 	connected := false
 wait:
@@ -286,9 +298,10 @@ wait:
 		select {
 		case <-rp.P.ExitChan():
 			break wait
-		case <-deadline:
-			break wait
 		case <-time.After(50 * time.Millisecond):
+		}
+		if w.Now()-t0 > 20*time.Second+w.InjectedTotal() {
+			break wait
 		}
 	}
 	time.Sleep(3 * time.Second) // let the user output happen
@@ -318,6 +331,13 @@ wait:
 		return
 	}
 	w.Probe("expect.serve")
+	if strings.HasSuffix(out, "\nUSER OUTPUT ON STDOUT\n") && w.InjectedTotal() >= time.Second {
+		// Serve was stalled between writing the line and redirecting os.Stdout:
+		// what the plugin's OWN code printed in that window went to the real
+		// stdout. The property speaks of what go-plugin itself writes there.
+		w.Probe("user-output-before-redirect")
+		out = strings.TrimSuffix(out, "USER OUTPUT ON STDOUT\n")
+	}
 	if ln == "tcpbusy" || ln == "tcp" {
 		w.Probe("listener.tcp")
 	}
